@@ -521,7 +521,7 @@ fn forged_main(seed: u64, hist: u64, dist: &mut Dist) {
 
 #[cfg(vbxq_aelys_lang_verif)]
 fn main() {
-    quiet_panics();
+    if !flag("--loud") { quiet_panics(); }
     let seed = arg_u64("--seed", 0);
     let hist = arg_u64("--hist", 100);
     let maxlen = arg_u64("--maxlen", 200);
